@@ -381,7 +381,7 @@ __CPROVER_ensures(__CPROVER_return_value >= -1)
 /* PO[C14] xcmc_attr_get.long_name_refused: a name that does not fit attr_name[64] with its NUL is refused before anything is sent */
 __CPROVER_ensures(xvu_g_len >= XCM_ATTR_NAME_MAX ==> (__CPROVER_return_value == -1 && xv_errno == EOVERFLOW && xv_send_calls == __CPROVER_old(xv_send_calls) && xv_recv_calls == __CPROVER_old(xv_recv_calls)))
 /* PO[C14] xcmc_attr_get.one_request: otherwise exactly ONE full-size message goes out on the session's descriptor: type get_attr_req, the name with its NUL, zeros behind it in the name field */
-__CPROVER_ensures(xvu_g_len < XCM_ATTR_NAME_MAX ==> (XVU_SENT_ONE(session) && (XVU_IN(0, xv_j, XVU_TX_HDR) ==> xvu_tx_tracked) && \
+__CPROVER_ensures(xvu_g_len < XCM_ATTR_NAME_MAX ==> (XVU_SENT_ONE(session) && ((XVU_IN(0, xv_j, 4) || XVU_IN(8, xv_j, XVU_TX_HDR)) ==> xvu_tx_tracked) && \
                   (XVU_IN(0, xv_j, 4) ==> xv_send_c == 0) && \
                   (XVU_IN((long)XVU_OFF_NAME, xv_j, (long)(XVU_OFF_NAME + xvu_g_len)) ==> xv_send_c == (uint8_t)attr_name[xv_j - (long)XVU_OFF_NAME]) && \
                   (XVU_IN((long)(XVU_OFF_NAME + xvu_g_len), xv_j, (long)(XVU_OFF_NAME + XCM_ATTR_NAME_MAX)) ==> xv_send_c == 0)))
@@ -405,7 +405,11 @@ __CPROVER_ensures((xvu_g_len < XCM_ATTR_NAME_MAX && XVU_SEND_OK && xvu_rx.full &
  * bytes and attr_len is at most the 512 bytes of the protocol field. */
 void xvu_attr_cb(const char *attr_name, enum xcm_attr_type type, void *attr_value, size_t attr_len, void *cb_data)
 /* PO[C14] xcmc_attr_get_all.callback_gets_a_terminated_name_and_a_bounded_value */
+#ifndef XVU_CB_NAME_CHECK
+__CPROVER_requires(attr_len <= CTL_ATTR_VALUE_MAX && __CPROVER_r_ok(attr_value, attr_len == 0 ? 1 : attr_len) && __CPROVER_r_ok(attr_name, XCM_ATTR_NAME_MAX))
+#else
 __CPROVER_requires(attr_len <= CTL_ATTR_VALUE_MAX && __CPROVER_r_ok(attr_value, attr_len == 0 ? 1 : attr_len) && __CPROVER_r_ok(attr_name, XCM_ATTR_NAME_MAX) && XVU_CSTR64(attr_name))
+#endif
 __CPROVER_assigns(xvu_cb)
 __CPROVER_ensures(xvu_cb.calls == __CPROVER_old(xvu_cb.calls) + 1)
 ;
@@ -415,7 +419,7 @@ __CPROVER_requires(XV_FD_GHOST_RANGE && __CPROVER_is_fresh(session, sizeof(*sess
 __CPROVER_assigns(xv_errno, xv_blocked, XV_SEND_ASSIGNS, XV_RECV_ASSIGNS, xvu_rx, xvu_tx_tracked, xvu_cb)
 __CPROVER_ensures(__CPROVER_return_value == 0 || __CPROVER_return_value == -1)
 /* PO[C14] xcmc_attr_get_all.one_request: one full-size message of type get_all_attr_req, all zero behind the type */
-__CPROVER_ensures(XVU_SENT_ONE(session) && (XVU_IN(0, xv_j, XVU_TX_HDR) ==> xvu_tx_tracked) && (xv_j == 0 ==> xv_send_c == ctl_proto_type_get_all_attr_req) && \
+__CPROVER_ensures(XVU_SENT_ONE(session) && ((XVU_IN(0, xv_j, 4) || XVU_IN(8, xv_j, XVU_TX_HDR)) ==> xvu_tx_tracked) && (xv_j == 0 ==> xv_send_c == ctl_proto_type_get_all_attr_req) && \
                   (XVU_IN(1, xv_j, 4) ==> xv_send_c == 0) && (XVU_IN(8, xv_j, XVU_TX_HDR) ==> xv_send_c == 0))
 /* PO[C14] xcmc_attr_get_all.reply_checked: short replies, other types and attribute counts above the 64 entries of the message fail, without any callback */
 __CPROVER_ensures((!XVU_SEND_OK || !XVU_ALL_OK) ==> (__CPROVER_return_value == -1 && xvu_cb.calls == __CPROVER_old(xvu_cb.calls)))
